@@ -1298,6 +1298,22 @@ def explore_c13(ctx, res, replay_ops=None):
     accepted_valid = 0
     for i, (op, im, mo) in enumerate(zip(r.ops, r.impl, r.model)):
         t = op.split()
+        if t[1] == "conc":
+            # requests served at the same moment: good and bad tokens side by side on one route, then the bad ones alone
+            res.evaluations += 1
+            res.traces_validated += 1
+            res.nontrivial.add(op)
+            res.dist["concurrent-requests:%s-rounds" % t[5]] += 1
+            d = dict(x.split("=", 1) for x in im.split(" ") if "=" in x)
+            if not im.startswith("conc ") or d.get("accepted") != "0":
+                res.violation("oracle", "C13: %s %s (service %s): with requests carrying a token signed by the NRF key served at the same moment, "
+                              "%s of %s requests whose token is NOT signed by the NRF key were not answered 401 (first: %s)" % (
+                                  t[3], bytes.fromhex(t[4]).decode(), t[2], d.get("accepted", "?"), d.get("bad", "?"), d.get("first", im[:200])),
+                              [op, "# impl:  " + im[:300], "# model: " + mo[:300]])
+            elif im != mo:
+                res.disagreements += 1
+                res.violation("correspondence", "auth: model and implementation differ", [op, "# impl:  " + im, "# model: " + mo], found_input=False)
+            continue
         if t[1] != "probe":
             continue
         if im == "n/a":
@@ -1362,7 +1378,8 @@ def explore_c13(ctx, res, replay_ops=None):
                 "histories: on every route a token signed by the NRF key first, then its 10 near misses (letter case of one letter of the signature, "
                 "claims or JOSE header changed, whole header lower-/upper-cased, signature truncated / one character replaced / dropped, lower-case scheme), "
                 "then all near misses on all routes again; expects 401, an unchanged subscriber pool and an unchanged digest of the whole charging state "
-                "from every request whose token is not signed by the NRF key, whatever was accepted before; the Lean router model "
+                "from every request whose token is not signed by the NRF key, whatever was accepted before; per service 150 rounds (thorough 3000) of 4 good + 4 bad "
+                "tokens served at the same moment on one route, then the bad ones alone; the Lean router model "
                 "(regenerated control-flow paths of Check and AuthorizationCheck, every adversary, every feasible path) must predict the same; "
                 "distinct = (services, method, path)")
 
